@@ -391,7 +391,9 @@ def SDOF_bellandMS(Sy, dt, sel_fn, phi_FDD, method="FSDD", cm=1, MAClim=0.85, DF
         elif method == "EFDD":
             SDOFbell += np.array(
                 [
-                    Sval[csm, csm, l_] if MAC(phi_FDD, Svec[csm, :, l_]) > MAClim else 0
+                    Sval[csm, csm, l_] ** 2  # SD_svalsvec stores the square roots
+                    if MAC(phi_FDD, Svec[csm, :, l_]) > MAClim
+                    else 0
                     for l_ in range(int(idxlim[0]), int(idxlim[1]))
                 ]
             )
